@@ -81,6 +81,16 @@ def sysroot():
     return subprocess.check_output(["rustc", "+nightly", "--print", "sysroot"], text=True).strip()
 
 
+def _prune(fdir, keep=80):
+    """Keep the facts directory bounded: drop the oldest facts files beyond `keep`."""
+    try:
+        fs = sorted((f for f in os.listdir(fdir) if f.startswith("facts-") and f.endswith(".json")), key=lambda f: os.path.getmtime(os.path.join(fdir, f)))
+        for f in fs[:-keep]:
+            os.remove(os.path.join(fdir, f))
+    except OSError:
+        pass
+
+
 def build_facts(features, repo=None, crate="tau_engine", tag=None):
     """Return the path of a facts JSON for `repo` under `features` (comma list), building if needed."""
     repo = repo or REPO
@@ -88,9 +98,13 @@ def build_facts(features, repo=None, crate="tau_engine", tag=None):
     os.makedirs(CACHE, exist_ok=True)
     key = _sha(repo_inputs(repo) + [DRIVER]) + "|" + features + "|" + crate + "|" + os.path.abspath(repo)
     key = hashlib.sha256(key.encode()).hexdigest()[:24]
-    out = os.path.join(CACHE, "facts-%s.json" % key)
+    # facts of scratch copies (TAU_FACTS_DIR, set by tools/try_patch.sh) die with the copy; only /repo's own facts are kept
+    fdir = os.environ.get("TAU_FACTS_DIR", CACHE)
+    os.makedirs(fdir, exist_ok=True)
+    out = os.path.join(fdir, "facts-%s.json" % key)
     if os.path.exists(out):
         return out
+    _prune(fdir)
     fkey = hashlib.sha256((features + "|" + crate).encode()).hexdigest()[:10]
     tdir = os.path.join(CACHE, "target-" + fkey)
     lock = open(os.path.join(CACHE, "lock-" + fkey), "w")
@@ -418,7 +432,48 @@ def _desugar(n):
             out[key] = _desugar(v)
         else:
             out[key] = v
-    return out
+    return _explicit_try(out)
+
+
+def _ret_none(n):
+    """`return None` (possibly in a block of its own)"""
+    n = unblock(n)
+    if n.get("k") == "Block":
+        if not n["stmts"] and n.get("expr"):
+            return _ret_none(n["expr"])
+        if len(n["stmts"]) == 1 and n["stmts"][0]["k"] == "Expr" and not n.get("expr"):
+            return _ret_none(n["stmts"][0]["e"])
+        return False
+    return n.get("k") == "Return" and n.get("value") is not None and adt_is(peel(n["value"]), "Option", "None")
+
+
+def _explicit_try(n):
+    """The hand-written spellings of `E?` on an Option are given the same node as `?`:
+         match E { Some(x) => x, None => return None }        ->  E?
+         let Some(P) = E else { return None };                ->  let P = E?;"""
+    k = n.get("k")
+    if k == "Match" and len(n["arms"]) == 2 and not any(a.get("guard") for a in n["arms"]):
+        some = [a for a in n["arms"] if variant_of(a["pat"]) == ("Option", "Some")]
+        none = [a for a in n["arms"] if variant_of(a["pat"]) == ("Option", "None") or strip_ref(a["pat"]).get("k") == "Wild"]
+        if len(some) == 1 and len(none) == 1 and none[0] is n["arms"][1] and _ret_none(none[0]["body"]):
+            sub = subpat(some[0]["pat"], 0)
+            b = peel(unblock(some[0]["body"]))
+            if sub is not None and sub.get("k") == "Bind" and not sub.get("sub") and b.get("k") == "Var" and b.get("id") == sub.get("id") and "Yes" not in sub.get("mode", ""):
+                return {"k": "Try", "ty": n["ty"], "sp": n["sp"], "arg": n["scrut"]}
+    if k == "Block":
+        # `let _ = mem::replace(&mut PLACE, V);` (old value discarded) is the assignment `PLACE = V;`
+        for i, s in enumerate(n["stmts"]):
+            e = s.get("init") if s["k"] == "Let" and strip_ref(s["pat"]).get("k") == "Wild" and s.get("else") is None else s.get("e") if s["k"] == "Expr" else None
+            if isinstance(e, dict) and call_is(e, "mem::replace") and len(e["args"]) == 2 and e["args"][0].get("k") == "Borrow" and e["args"][0].get("mut"):
+                n["stmts"][i] = {"k": "Expr", "e": {"k": "Assign", "ty": "()", "sp": e.get("sp"), "lhs": e["args"][0]["arg"], "rhs": e["args"][1]}}
+        for s in n["stmts"]:
+            if s["k"] == "Let" and s.get("else") is not None and s.get("init") is not None and variant_of(s["pat"]) == ("Option", "Some") and _ret_none(s["else"]):
+                sub = subpat(s["pat"], 0)
+                if sub is not None:
+                    s["init"] = {"k": "Try", "ty": sub.get("ty", "?"), "sp": s["init"].get("sp"), "arg": s["init"]}
+                    s["pat"] = sub
+                    s["else"] = None
+    return n
 
 
 # Functions that rules refer to by name (anchors) are never inlined; every other local function that is small, non-recursive and
